@@ -210,7 +210,7 @@ def coq_case(rec):
     elif name == 'add':
         if o.get('cond'):
             return None
-        al = {'add': 1, 'iadd': 1, 'sub': -1, 'isub': -1}.get(o['kind'])
+        al = getattr(npc_gen, 'ADD_KINDS', {'add': 1, 'iadd': 1, 'sub': -1, 'isub': -1}).get(o['kind'])
         if al is None:
             al = complex(npc_gen.dec_scalar(o['alpha']))
         al = complex(al)
